@@ -134,8 +134,37 @@ def run(names, tier, props, jobs=1):
     sh("git -C /repo worktree prune")
 
 
+def table():
+    res = json.load(open(os.path.join(SEEDED, "RESULTS.json")))
+    lines = ["# Seeded changes and the checks that catch them", "",
+             "Generated by `tools_seed.py table` from RESULTS.json (quick tier unless stated; each patch applied in a scratch worktree of "
+             "/repo HEAD).", "", "| change | property | files | needs, in order to manifest | check result |", "|---|---|---|---|---|"]
+    for n in sorted(os.listdir(SEEDED)):
+        d = os.path.join(SEEDED, n)
+        if not os.path.isdir(d):
+            continue
+        m = json.load(open(os.path.join(d, "meta.json")))
+        r = res.get(n, {})
+        cell = []
+        for k, v in sorted(r.items()):
+            if isinstance(v, dict) and "verdict" in v:
+                first = (v["violations"][0].split("(case", 1)[1][:110] if v.get("violations") else "")
+                cell.append("%s: **%s** (exit %d, %ss)%s" % (k, v["verdict"], v["exit"], v.get("seconds", "?"),
+                                                             (" — case" + first.rstrip(")")) if first else ""))
+        if "error" in r:
+            cell.append(r["error"])
+        need = " ".join(m.get("needs_to_manifest", "").split())[:260].replace("|", "/")
+        lines.append("| %s | %s | %s | %s | %s |" % (n, m["property"], ", ".join(f.replace("spacepackets/", "") for f in m.get("files", [])),
+                                                  need, "<br>".join(cell) or "not run"))
+    open(os.path.join(SEEDED, "RESULTS.md"), "w").write("\n".join(lines) + "\n")
+    print("\n".join(lines[-42:]))
+
+
 if __name__ == "__main__":
     a = sys.argv[1:]
+    if a and a[0] == "table":
+        table()
+        sys.exit(0)
     if a and a[0] == "verify":
         sys.exit(0 if verify(a[1], a[2], a[3]) else 1)
     if a and a[0] == "run":
